@@ -177,3 +177,62 @@ Theorem C06_client_framing : forall wire r k stream sizes,
     (client_fails (firstn k wire) stream sizes).
 Proof. exact client_framing. Qed.
 Print Assumptions C06_client_framing.
+
+(* --- a stream that fails transiently (Model/BodyIntr.v: the stream is a list of events, SData g | SIntr = one read fails with
+   ErrorKind::Interrupted and consumes nothing; std's read_exact / read_until retry by themselves, Read::read and fill_buf pass
+   the error on; a caller that retries takes one list entry per call).  Interruptions never lose, duplicate or reorder a byte
+   and never turn a cut-short body into a complete one - for every placement of the interruptions (Proofs/BodyIntr.v; repaired
+   finding F40: ChunkedReader::read dropped the bytes it had already delivered when a later read of the stream failed -
+   Example f40_old_code_loses_bytes there runs the code before the repair).  On streams without SIntr the model is
+   Model/Body.v (the embed_ lemmas). *)
+From KV Require Import Model.BodyIntr Proofs.BodyIntr.
+
+Theorem C06_intr_chunked_read : forall lo evs sizes p rest,
+  spec_decode (lo ++ concat (strip evs)) = Valid p rest -> positive sizes ->
+  length p + 1 * count_intr evs < length sizes ->
+  fst (read_all_e (new_chunked_e lo evs) sizes []) = (p, AtEof).
+Proof. exact intr_chunked_read_valid. Qed.
+Print Assumptions C06_intr_chunked_read.
+Theorem C06_intr_fixed_read : forall lo evs sizes n p rest,
+  spec_fixed n (lo ++ concat (strip evs)) = Valid p rest -> positive sizes ->
+  length p + 1 * count_intr evs < length sizes ->
+  fst (read_all_e (new_fixed_e lo evs n) sizes []) = (p, AtEof).
+Proof. exact intr_fixed_read_valid. Qed.
+Theorem C06_intr_chunked_read_invalid : forall lo evs sizes w,
+  spec_decode (lo ++ concat (strip evs)) = Invalid w -> positive sizes ->
+  snd (fst (read_all_e (new_chunked_e lo evs) sizes [])) <> AtEof.
+Proof. exact intr_chunked_read_invalid. Qed.
+Theorem C06_intr_fixed_read_invalid : forall lo evs sizes n w,
+  spec_fixed n (lo ++ concat (strip evs)) = Invalid w -> positive sizes ->
+  snd (fst (read_all_e (new_fixed_e lo evs n) sizes [])) <> AtEof.
+Proof. exact intr_fixed_read_invalid. Qed.
+Theorem C06_intr_chunked_bufread : forall lo evs amts p rest,
+  spec_decode (lo ++ concat (strip evs)) = Valid p rest -> positive amts ->
+  length p + 1 * count_intr evs < length amts ->
+  fst (bufread_all_e (new_chunked_e lo evs) amts []) = (p, AtEof).
+Proof. exact intr_chunked_bufread_valid. Qed.
+Theorem C06_intr_fixed_bufread : forall lo evs amts n p rest,
+  spec_fixed n (lo ++ concat (strip evs)) = Valid p rest -> positive amts ->
+  length p + 1 * count_intr evs < length amts ->
+  fst (bufread_all_e (new_fixed_e lo evs n) amts []) = (p, AtEof).
+Proof. exact intr_fixed_bufread_valid. Qed.
+Theorem C06_intr_chunked_bufread_invalid : forall lo evs amts w,
+  spec_decode (lo ++ concat (strip evs)) = Invalid w -> positive amts ->
+  snd (fst (bufread_all_e (new_chunked_e lo evs) amts [])) <> AtEof.
+Proof. exact intr_chunked_bufread_invalid. Qed.
+Theorem C06_intr_fixed_bufread_invalid : forall lo evs amts n w,
+  spec_fixed n (lo ++ concat (strip evs)) = Invalid w -> positive amts ->
+  snd (fst (bufread_all_e (new_fixed_e lo evs n) amts [])) <> AtEof.
+Proof. exact intr_fixed_bufread_invalid. Qed.
+Print Assumptions C06_intr_fixed_read.
+Print Assumptions C06_intr_chunked_read_invalid.
+Print Assumptions C06_intr_chunked_bufread.
+Print Assumptions C06_intr_fixed_bufread_invalid.
+(* the extended model is the old one on streams that never fail *)
+Theorem C06_intr_embeds_chunked : forall lo st sizes,
+  fst (read_all_e (new_chunked_e lo (map SData st)) sizes []) = fst (read_all (new_chunked lo st) sizes []).
+Proof. exact embed_chunked_read_result. Qed.
+Theorem C06_intr_embeds_fixed : forall lo st n sizes,
+  fst (read_all_e (new_fixed_e lo (map SData st) n) sizes []) = fst (read_all (new_fixed lo st n) sizes []).
+Proof. exact embed_fixed_read_result. Qed.
+Print Assumptions C06_intr_embeds_chunked.
